@@ -49,7 +49,9 @@ fn main() {
     let seed: u64 = args[3].parse().unwrap_or(1);
     let outdir = args[4].as_str();
     // silence panic messages of caught panics (they are outcomes, not noise)
-    std::panic::set_hook(Box::new(|_| {}));
+    if std::env::var("AVH_DEBUG_PANIC").is_err() {
+        std::panic::set_hook(Box::new(|_| {}));
+    }
     match prop {
         "C13" => c13::run(tier, seed, outdir),
         "C16" => c16::run(tier, seed, outdir),
